@@ -16,10 +16,17 @@ def classify(f):
     return None
 
 
+def kind_a(report, tier, seed):
+    from contracts import idexpr
+
+    idexpr.run(report, {"exhaust", "context"})
+
+
 def check(argv):
     return run(
-        "C01", argv, analyses=[], static_note="", classify=classify,
-        explanation="Kind C: every evaluate kernel of the family run on the reference machine with symbolic values; the decoded output is compared, as a "
+        "C01", argv, analyses=[], static_note="", classify=classify, kind_a=kind_a,
+        explanation="Kind A: exhaust_tensor* preserves the value with the exhausted operand read as 0 (all expressions); extract_context*/Context implement the documented sparsity rule and "
+                    "'sparse => value 0 when every compressed operand at the index is absent' (lemma). Kind C: every evaluate kernel of the family run on the reference machine with symbolic values; the decoded output is compared, as a "
                     "polynomial at every coordinate, with specs/algebra.meaning (sum of products, per-term summation, broadcasting), so one run covers all values.",
     )
 
